@@ -143,7 +143,21 @@ fn randomize(v: &mut serde_json::Value, st: &mut u64, key: &str) {
 pub fn gas_costs(s: &Sched) -> GasCosts {
     match s {
         Sched::Default => GasCosts::default(),
-        Sched::Unit => GasCosts::unit(),
+        Sched::Unit => {
+            // `GasCosts::unit()` has dependent costs with gas_per_unit = 0 (e.g. storage_clear): a
+            // range clear of 2^60 slots would then be free and run for ever. Keep every unit >= 1.
+            fn fix(v: &mut serde_json::Value, key: &str) {
+                match v {
+                    serde_json::Value::Number(n) if key == "gas_per_unit" && n.as_u64() == Some(0) => *v = serde_json::Value::from(1u64),
+                    serde_json::Value::Array(a) => a.iter_mut().for_each(|x| fix(x, key)),
+                    serde_json::Value::Object(o) => o.iter_mut().for_each(|(k, x)| fix(x, k)),
+                    _ => {}
+                }
+            }
+            let mut v = serde_json::to_value(GasCosts::unit()).expect("ser");
+            fix(&mut v, "");
+            serde_json::from_value(v).expect("unit gas costs deserialize")
+        }
         Sched::Random(seed) => {
             let mut v = serde_json::to_value(GasCosts::unit()).expect("ser");
             let mut st = *seed;
